@@ -8,9 +8,10 @@
 (*   Mode "fields": the script grows by one request per step          (C03)     *)
 (*   Mode "skip"  : one more value is replaced by an offending value  (C05)     *)
 (*   Mode "typed" : value x encoding x target; damage = cut / corrupt (C07)     *)
-EXTENDS LoadScript, MsgPackCorpus, Json
+EXTENDS LoadScript, MsgPackCorpus, JsonFormat, JsonCorpus, Json
 
-CONSTANTS Mode, MaxOps, Widths, Pads,
+CONSTANTS Arch,            \* "msgpack" | "json": which archive's documents are generated
+          Mode, MaxOps, Widths, Pads,
           TypedTargets,    \* typed mode: target types explored
           CorruptBytes     \* typed mode: byte values written over each position of the encoding ({} = no corruption)
 
@@ -25,9 +26,26 @@ vars == <<doc, w, root, pol, aux>>
 S(x) == <<"str", x>>
 Ka == <<97>>  Kb == <<98>>  Kc == <<99>>  Kz == <<122>>
 
-ThrowPol == [mm |-> "throw", ov |-> "throw"]
-SkipPol  == [mm |-> "skip", ov |-> "skip"]
-MixPol   == [mm |-> "skip", ov |-> "throw"]
+ThrowPol == [mm |-> "throw", ov |-> "throw", arch |-> Arch]
+SkipPol  == [mm |-> "skip", ov |-> "skip", arch |-> Arch]
+MixPol   == [mm |-> "skip", ov |-> "throw", arch |-> Arch]
+
+\* JSON: the "width" index selects a standard rendering (whitespace, escapes, member order) and an encoding
+JStyleSeq == << [ws |-> 0, esc |-> 0, order |-> 0, enc |-> "utf8", bom |-> FALSE],
+                [ws |-> 2, esc |-> 1, order |-> 1, enc |-> "utf8", bom |-> FALSE],
+                [ws |-> 1, esc |-> 2, order |-> 0, enc |-> "utf8", bom |-> TRUE],
+                [ws |-> 1, esc |-> 0, order |-> 1, enc |-> "utf16le", bom |-> TRUE],
+                [ws |-> 0, esc |-> 1, order |-> 0, enc |-> "utf16be", bom |-> FALSE],
+                [ws |-> 2, esc |-> 0, order |-> 0, enc |-> "utf32le", bom |-> FALSE],
+                [ws |-> 0, esc |-> 2, order |-> 1, enc |-> "utf32be", bom |-> TRUE],
+                [ws |-> 0, esc |-> 0, order |-> 0, enc |-> "utf16le", bom |-> FALSE],
+                [ws |-> 0, esc |-> 0, order |-> 0, enc |-> "utf32be", bom |-> FALSE] >>
+\* the document as it is actually laid out (member order) under width/style index wi
+DocFor(d, wi) == IF Arch = "msgpack" \/ JStyleSeq[wi + 1].order = 0 THEN d ELSE ReverseMaps(d)
+EncodeDoc(d, wi) ==
+  IF Arch = "msgpack" THEN Enc(d, wi)
+  ELSE LET st == JStyleSeq[wi + 1] IN EncodeText(Render(DocFor(d, wi), [st EXCEPT !.order = 0], 0), st.enc, st.bom)
+DocMeta(wi) == IF Arch = "msgpack" THEN [enc |-> "bin", bom |-> FALSE] ELSE [enc |-> JStyleSeq[wi + 1].enc, bom |-> JStyleSeq[wi + 1].bom]
 
 -----------------------------------------------------------------------------
 (* Mode "fields" (C03) *)
@@ -40,7 +58,10 @@ Objs ==
   \cup { <<"map", <<<<S(Ka), x>>>>>> : x \in FieldValues }
   \cup { <<"map", <<<<S(Ka), x>>, <<S(Kb), y>>>>>> : x \in FieldValues, y \in {U(5), S(<<120, 121>>), <<"arr", <<U(1), U(2)>>>>} }
   \cup { <<"map", <<<<S(Kb), U(6)>>, <<S(Ka), x>>, <<S(Kc), y>>>>>> : x \in FieldValues, y \in {<<"nil">>, S(Run(115, 20))} }
-  \cup { <<"map", <<<<U(1), U(10)>>, <<U(-2), S(<<120>>)>>, <<S(Ka), U(7)>>>>>> }
+  \cup (IF Arch = "msgpack" THEN { <<"map", <<<<U(1), U(10)>>, <<U(-2), S(<<120>>)>>, <<S(Ka), U(7)>>>>>>,
+                                   \* keys whose bit patterns coincide across signedness: 2^64-1 vs -1, 2^32-1 vs (int32)-1
+                                   <<"map", <<<<<<"int", FALSE, <<255, 255, 255, 255, 255, 255, 255, 255>>>>, U(20)>>,
+                                              <<<<"int", FALSE, <<0, 0, 0, 0, 255, 255, 255, 255>>>>, U(30)>>, <<U(1), U(10)>>>>>> } ELSE {})
 
 ReqOps ==
   { [op |-> "req", ks |-> k, t |-> t] : k \in {Ka, Kb, Kc, Kz}, t \in {"i32", "str"} }
@@ -49,7 +70,8 @@ ReqOps ==
                                                        <<[op |-> "req", ks |-> <<109>>, t |-> "str"], [op |-> "req", ks |-> <<110>>, t |-> "i32"]>> } }
   \cup { [op |-> "arr", ks |-> Ka, ops |-> o] : o \in { <<>>, <<[op |-> "elem", t |-> "i32"]>>,
                                                        <<[op |-> "elem", t |-> "i32"], [op |-> "elem", t |-> "i32"], [op |-> "isend"]>> } }
-  \cup { [op |-> "req", ki |-> 1, t |-> "i32"], [op |-> "req", ki |-> -2, t |-> "str"] }
+  \cup (IF Arch = "msgpack" THEN { [op |-> "req", ki |-> 1, t |-> "i32"], [op |-> "req", ki |-> -2, t |-> "str"],
+                                   [op |-> "req", ki |-> -1, t |-> "i32"], [op |-> "req", ku |-> 1, t |-> "i32"] } ELSE {})
 
 FieldsRoot(ops) == [k |-> "arr", ops |-> <<[op |-> "elem", t |-> "str"], [op |-> "obj", ops |-> ops], [op |-> "elem", t |-> "i32"]>>]
 Padded(d, p) == <<"arr", <<S(Run(112, p)), d, U(7)>>>>
@@ -68,15 +90,15 @@ NextFields == /\ Len(aux) < MaxOps
 (* Mode "skip" (C05): well-typed documents, values replaced by offending ones *)
 
 \* replace the value at `path` (sequence of child indices: array element index / map pair index)
-RECURSIVE ReplaceAt(_, _, _)
-ReplaceAt(v, path, x) ==
+RECURSIVE ReplaceAtPath(_, _, _)
+ReplaceAtPath(v, path, x) ==
   IF path = <<>> THEN x
-  ELSE IF v[1] = "arr" THEN <<"arr", [v[2] EXCEPT ![path[1]] = ReplaceAt(@, Tail(path), x)]>>
-  ELSE <<"map", [v[2] EXCEPT ![path[1]] = <<@[1], ReplaceAt(@[2], Tail(path), x)>>]>>
+  ELSE IF v[1] = "arr" THEN <<"arr", [v[2] EXCEPT ![path[1]] = ReplaceAtPath(@, Tail(path), x)]>>
+  ELSE <<"map", [v[2] EXCEPT ![path[1]] = <<@[1], ReplaceAtPath(@[2], Tail(path), x)>>]>>
 
 I40 == <<"int", FALSE, <<0, 0, 1, 0, 0, 0, 0, 0>>>>       \* 2^40: out of range for every 32-bit target
-Offences == { S(<<122>>), <<"arr", <<U(9)>>>>, <<"map", <<<<S(<<113>>), U(1)>>>>>>, <<"nil">>, I40, <<"bin", <<1, 2>>>>,
-              <<"f64", <<63, 248, 0, 0, 0, 0, 0, 0>>>>, <<"bool", TRUE>> }
+Offences == { S(<<122>>), <<"arr", <<U(9)>>>>, <<"map", <<<<S(<<113>>), U(1)>>>>>>, <<"nil">>, I40,
+              <<"f64", <<63, 248, 0, 0, 0, 0, 0, 0>>>>, <<"bool", TRUE>> } \cup (IF Arch = "msgpack" THEN { <<"bin", <<1, 2>>>> } ELSE {})
 
 Rec(x, y) == <<"map", <<<<S(<<120>>), x>>, <<S(<<121>>), y>>>>>>
 RecOps == <<[op |-> "req", ks |-> <<120>>, t |-> "i32"], [op |-> "req", ks |-> <<121>>, t |-> "str"]>>
@@ -100,7 +122,7 @@ Shape4 == [doc |-> <<"arr", <<U(1), S(<<120>>), <<"f64", <<63, 248, 0, 0, 0, 0, 
            root |-> [k |-> "arr", ops |-> <<[op |-> "elem", t |-> "i32"], [op |-> "elem", t |-> "str"], [op |-> "elem", t |-> "f64"],
                                            [op |-> "elem", t |-> "u8"], [op |-> "elem", t |-> "i32"]>>],
            paths |-> {<<1>>, <<2>>, <<3>>, <<4>>}]
-Shapes == {Shape1, Shape2, Shape3, Shape4}
+Shapes == {Shape1, Shape2, Shape4} \cup (IF Arch = "msgpack" THEN {Shape3} ELSE {})
 
 InitSkip == /\ \E sh \in Shapes : doc = sh.doc /\ root = sh.root /\ aux = [clean |-> sh.doc, todo |-> sh.paths, done |-> {}]
             /\ w \in Widths
@@ -111,20 +133,21 @@ PrefixOf(a, b) == Len(a) <= Len(b) /\ SubSeq(b, 1, Len(a)) = a
 NextSkip == /\ Cardinality(aux.done) < MaxOps
             /\ \E p \in aux.todo, x \in Offences :
                   /\ \A q \in aux.done : ~PrefixOf(q, p) /\ ~PrefixOf(p, q)
-                  /\ doc' = ReplaceAt(doc, p, x)
+                  /\ doc' = ReplaceAtPath(doc, p, x)
                   /\ aux' = [aux EXCEPT !.todo = @ \ {p}, !.done = @ \cup {p}]
             /\ UNCHANGED <<w, root, pol>>
 
 -----------------------------------------------------------------------------
 (* Mode "typed" (C07): every corpus value in every legal width into every target, whole and truncated *)
-Targets == {"bool", "i8", "u8", "i16", "u16", "i32", "u32", "i64", "u64", "f32", "f64", "str", "null", "tp_ns", "vec_u8", "vec_i32"}
+Targets == {"bool", "i8", "u8", "i16", "u16", "i32", "u32", "i64", "u64", "f32", "f64", "str", "null", "vec_i32"}
+           \cup (IF Arch = "msgpack" THEN {"tp_ns", "vec_u8"} ELSE {})
 
 TypedRoots(T) == { [k |-> "leaf", t |-> T],
                    [k |-> "arr", ops |-> <<[op |-> "elem", t |-> T], [op |-> "elem", t |-> "i32"]>>],
                    [k |-> "obj", ops |-> <<[op |-> "req", ks |-> Ka, t |-> T], [op |-> "req", ks |-> Kb, t |-> "i32"]>>] }
 Wrap(v, r) == IF r.k = "leaf" THEN v ELSE IF r.k = "arr" THEN <<"arr", <<v, U(7)>>>> ELSE <<"map", <<<<S(Ka), v>>, <<S(Kb), U(7)>>>>>>
 
-TypedCorpus == ScalarCorpus \cup { <<"arr", <<U(1), U(200), U(-3)>>>>, <<"arr", <<>>>>, <<"arr", <<U(1), S(<<122>>)>>>>, <<"map", <<<<S(Ka), U(1)>>>>>> }
+TypedCorpus == (IF Arch = "msgpack" THEN ScalarCorpus ELSE JScalars) \cup { <<"arr", <<U(1), U(200), U(-3)>>>>, <<"arr", <<>>>>, <<"arr", <<U(1), S(<<122>>)>>>>, <<"map", <<<<S(Ka), U(1)>>>>>> }
 
 InitTyped == /\ \E v \in TypedCorpus, T \in (IF TypedTargets = {} THEN Targets ELSE TypedTargets) : \E r \in TypedRoots(T) : doc = Wrap(v, r) /\ root = r
              /\ w \in Widths
@@ -133,10 +156,10 @@ InitTyped == /\ \E v \in TypedCorpus, T \in (IF TypedTargets = {} THEN Targets E
 
 \* damage: truncate the encoding by one more byte per step (cut = number of bytes removed), up to MaxOps bytes;
 \* or overwrite one byte of the intact encoding
-NextTyped == \/ /\ aux.ci = 0 /\ aux.cut < MaxOps /\ aux.cut + 1 < Len(Enc(doc, w))
+NextTyped == \/ /\ Arch = "msgpack" /\ aux.ci = 0 /\ aux.cut < MaxOps /\ aux.cut + 1 < Len(Enc(doc, w))
                 /\ aux' = [aux EXCEPT !.cut = @ + 1]
                 /\ UNCHANGED <<doc, w, root, pol>>
-             \/ /\ aux.ci = 0 /\ aux.cut = 0 /\ Len(Enc(doc, w)) <= 24
+             \/ /\ Arch = "msgpack" /\ aux.ci = 0 /\ aux.cut = 0 /\ Len(Enc(doc, w)) <= 24
                 /\ \E i \in 1..Len(Enc(doc, w)), b \in CorruptBytes :
                       /\ Enc(doc, w)[i] # b
                       /\ aux' = [aux EXCEPT !.ci = i, !.cb = b]
@@ -164,7 +187,7 @@ SkipKeepsShape == (Mode = "skip" /\ pol = SkipPol) =>
   LET e == Expected c == Exec(aux.clean, root, pol) IN
   e.ev[Len(e.ev)][1] = c.ev[Len(c.ev)][1] /\ (root.k = "arr" => e.ev[Len(e.ev)] = c.ev[Len(c.ev)])
 
-EncDoc(d) == LET e == Enc(d, w) IN
+EncDoc(d) == LET e == EncodeDoc(d, w) IN
   IF Mode # "typed" THEN e
   ELSE IF aux.ci # 0 THEN [e EXCEPT ![aux.ci] = aux.cb]
   ELSE SubSeq(e, 1, Len(e) - aux.cut)
@@ -196,6 +219,7 @@ DevExpected ==
        IF r.ok /\ n.ok /\ r.v # n.v
        THEN <<[dev |-> "Dev_Timestamp96FieldOrder", exp |-> IF Exotic(r.v) THEN [ev |-> <<>>, exc |-> <<"unspecified">>] ELSE Exec(r.v, root, pol)]>>
        ELSE <<>>
+  ELSE IF Arch # "msgpack" THEN <<>>
   ELSE LET d == DevTs96View(doc, w) IN
        IF d = doc THEN <<>>
        ELSE IF Mode = "typed" /\ aux.cut > 0 THEN
@@ -207,11 +231,11 @@ DevExpected ==
 Export ==
   IF Mode = "fields" THEN
      Len(aux) >= 1 => \A p \in Pads :
-        PrintT(<<"GEN", ToJson([doc |-> Enc(Padded(doc, p), w), root |-> root, pol |-> pol, exp |-> Exec(Padded(doc, p), root, pol)])>>)
+        PrintT(<<"GEN", ToJson([doc |-> EncodeDoc(Padded(doc, p), w), meta |-> DocMeta(w), root |-> root, pol |-> pol, exp |-> Exec(DocFor(Padded(doc, p), w), root, pol)])>>)
   ELSE IF Mode = "skip" THEN
-     PrintT(<<"GEN", ToJson([doc |-> Enc(doc, w), root |-> root, pol |-> pol, exp |-> Expected, expdev |-> DevExpected])>>)
+     PrintT(<<"GEN", ToJson([doc |-> EncodeDoc(doc, w), meta |-> DocMeta(w), root |-> root, pol |-> pol, exp |-> Exec(DocFor(doc, w), root, pol), expdev |-> DevExpected])>>)
   ELSE
-     PrintT(<<"GEN", ToJson([doc |-> EncDoc(doc), root |-> root, pol |-> pol, cut |-> aux.cut,
-                             exp |-> IF aux.ci # 0 THEN CorruptExpect ELSE IF aux.cut = 0 THEN Expected ELSE DamageExpect,
+     PrintT(<<"GEN", ToJson([doc |-> EncDoc(doc), meta |-> DocMeta(w), root |-> root, pol |-> pol, cut |-> aux.cut,
+                             exp |-> IF aux.ci # 0 THEN CorruptExpect ELSE IF aux.cut = 0 THEN Exec(DocFor(doc, w), root, pol) ELSE DamageExpect,
                              expdev |-> DevExpected])>>)
 =============================================================================
